@@ -72,6 +72,8 @@ Init == InitChoice \/ InitPlain \/ InitConfirm
 MNext == Next /\ UNCHANGED idx
 CNext == CoreNext /\ UNCHANGED idx
 Spec == Init /\ [][MNext]_mvars /\ WF_mvars(MNext)
+\* for the large enumerations (safety + emission only; liveness is checked on the smaller configurations)
+SafetySpec == Init /\ [][MNext]_mvars
 \* the algorithm alone, without the observer's counters: finite also when the dialogue spins
 CoreSpec == Init /\ [][CNext]_mvars /\ WF_mvars(CNext)
 
